@@ -13,12 +13,17 @@
 (* iteration of the syncer goroutine (Save).                                 *)
 EXTENDS Integers, Sequences, FiniteSets
 
-CONSTANT  StopAtGenesis        \* TRUE: the repaired client; FALSE: as originally coded
+CONSTANTS StopAtGenesis,       \* TRUE: the repaired client; FALSE: as originally coded
+          StrictForward        \* TRUE: forward completion needs newTarget.ts - oldest.ts >  window (the code);
+                               \* FALSE: >= (declares completion one timestamp too early)
 
-VARIABLES conf,        \* [n |-> height of the sync target, win |-> validity window]; never changes
+VARIABLES conf,        \* [n |-> height of the last block of the true chain (blocks above n0 arrive from consensus
+                       \*  while the backfill runs), n0 |-> height of the initial sync target, win |-> validity window]
+          tgt,         \* height of the current sync target (n0, then raised by UpdateSyncTarget)
           ts,          \* timestamps of the true chain: function 0..N -> Nat, non-decreasing
           oldest,      \* height of the oldest block the node already had (Syncer.oldestBlock)
           last,        \* the client's lastBlock (a height: only true blocks can be accepted)
+          inflight,    \* the client has sent a request and waits for the response
           reqH,        \* height the next request asks for (-1 models the uint64 underflow of 0 - 1)
           cdone,       \* the client closed the result channel
           delivered,   \* blocks pushed on the result channel, in order
@@ -28,10 +33,12 @@ VARIABLES conf,        \* [n |-> height of the sync target, win |-> validity win
 
 N   == conf.n
 Win == conf.win
-vars == <<conf, ts, oldest, last, reqH, cdone, delivered, saved, sdone, faults>>
+vars == <<conf, tgt, ts, oldest, last, inflight, reqH, cdone, delivered, saved, sdone, faults>>
 
 True(h)   == [id |-> h, parent |-> h - 1, h |-> h, ts |-> ts[h], ok |-> TRUE]
-MinTS     == IF ts[N] - Win > 0 THEN ts[N] - Win ELSE 0          \* calculateOldestAllowed(target)
+MinOf(h)  == IF ts[h] - Win > 0 THEN ts[h] - Win ELSE 0           \* calculateOldestAllowed(block h)
+MinTS     == MinOf(tgt)                  \* Syncer.minTimestamp: follows the current target
+MinTS0    == MinOf(conf.n0)              \* the request's MinTimestamp: fixed when FetchBlocks starts
 (* the block that ends the walk: first one strictly older than MinTS, else genesis *)
 Past(h)   == ts[h] < MinTS
 Boundary(from) == IF \E h \in 0..from : Past(h) THEN CHOOSE h \in 0..from : Past(h) /\ \A g \in (h+1)..from : ~Past(g)
@@ -44,7 +51,7 @@ RECURSIVE HonestFrom(_)
 HonestFrom(h) ==                       \* blocks h, h-1, ... ; stops after a block older than MinTS or when the
   IF h < 0 \/ h > N THEN <<>>          \* decremented height reaches 0 (so genesis needs a request of its own)
   ELSE IF h = 0 THEN <<True(0)>>
-  ELSE IF h - 1 = 0 \/ Past(h) THEN <<True(h)>>
+  ELSE IF h - 1 = 0 \/ ts[h] < MinTS0 THEN <<True(h)>>
   ELSE <<True(h)>> \o HonestFrom(h - 1)
 Honest(h) == HonestFrom(h)             \* <<>> stands for the error "no blocks found"
 
@@ -72,21 +79,26 @@ Accept(resp, expect) ==
        ELSE IF Finishes(b) THEN <<b>>
        ELSE <<b>> \o Accept(Tail(resp), b.parent)
 
-InitWith(n, w) ==
-  /\ conf = [n |-> n, win |-> w]
+InitWith(n0, nf, w) ==
+  /\ conf = [n |-> n0 + nf, n0 |-> n0, win |-> w] /\ tgt = n0
   /\ ts \in [0..N -> 0..(N + 1)] /\ \A h \in 1..N : ts[h - 1] <= ts[h]
-  /\ oldest \in 1..N                       \* what backfillFromExisting found (the window is not yet complete)
+  /\ oldest \in 1..n0                      \* what backfillFromExisting found (the window is not yet complete)
   /\ ~Past(oldest)
-  /\ last = oldest /\ reqH = oldest - 1 /\ cdone = FALSE
+  /\ last = oldest /\ inflight = FALSE /\ reqH = oldest - 1 /\ cdone = FALSE
   /\ delivered = <<>> /\ saved = <<>> /\ sdone = FALSE /\ faults = 0
 
-(* top of the client loop: done if lastBlock is older than the window (or, repaired, is genesis) *)
+(* top of the client loop: done if lastBlock is older than the window (or, repaired, is genesis) ... *)
+LoopDone == Past(last) \/ (StopAtGenesis /\ last = 0)
 ClientCheck ==
-  /\ ~cdone /\ (Past(last) \/ (StopAtGenesis /\ last = 0))
-  /\ cdone' = TRUE /\ UNCHANGED <<conf, ts, oldest, last, reqH, delivered, saved, sdone, faults>>
+  /\ ~cdone /\ ~inflight /\ LoopDone
+  /\ cdone' = TRUE /\ UNCHANGED <<conf, tgt, ts, oldest, last, inflight, reqH, delivered, saved, sdone, faults>>
+(* ... otherwise sample a peer and send the request *)
+RoundStart ==
+  /\ ~cdone /\ ~inflight /\ ~LoopDone
+  /\ inflight' = TRUE /\ UNCHANGED <<conf, tgt, ts, oldest, last, reqH, cdone, delivered, saved, sdone, faults>>
 
-Round(resp) ==
-  /\ ~cdone /\ ~(Past(last) \/ (StopAtGenesis /\ last = 0))
+(* processing of one response (the minimum timestamp may have moved since the request was sent) *)
+RoundBody(resp) ==
   /\ LET acc == Accept(resp, last - 1) IN        \* expected parent id of a true block h is h - 1
      /\ delivered' = delivered \o acc
      /\ IF acc = <<>> THEN UNCHANGED <<last, reqH, cdone>>
@@ -94,7 +106,8 @@ Round(resp) ==
              /\ last' = b.h
              /\ cdone' = Finishes(b)
              /\ reqH' = IF Finishes(b) THEN reqH ELSE b.h - 1        \* 0 - 1 underflows (modelled as -1)
-  /\ UNCHANGED <<conf, ts, oldest, saved, sdone>>
+  /\ UNCHANGED <<conf, tgt, ts, oldest, saved, sdone>>
+Round(resp) == ~cdone /\ inflight /\ inflight' = FALSE /\ RoundBody(resp)
 
 HonestRound == Round(Honest(reqH)) /\ UNCHANGED faults
 FaultyRound == \E r \in Responses(reqH) : Round(r) /\ faults' = faults + 1
@@ -103,19 +116,29 @@ FaultyRound == \E r \in Responses(reqH) : Round(r) /\ faults' = faults + 1
 Save ==
   /\ Len(saved) < Len(delivered)
   /\ saved' = Append(saved, delivered[Len(saved) + 1])
-  /\ UNCHANGED <<conf, ts, oldest, last, reqH, cdone, delivered, sdone, faults>>
+  /\ UNCHANGED <<conf, tgt, ts, oldest, last, inflight, reqH, cdone, delivered, sdone, faults>>
 SignalDone ==
   /\ cdone /\ Len(saved) = Len(delivered) /\ ~sdone
-  /\ sdone' = TRUE /\ UNCHANGED <<conf, ts, oldest, last, reqH, cdone, delivered, saved, faults>>
+  /\ sdone' = TRUE /\ UNCHANGED <<conf, tgt, ts, oldest, last, inflight, reqH, cdone, delivered, saved, faults>>
 
-Next == ClientCheck \/ HonestRound \/ FaultyRound \/ Save \/ SignalDone
+(* Syncer.UpdateSyncTarget(next block from consensus): accept it; if the blocks the node holds from `oldest` upwards
+   now span more than a window the backfill is complete (Close: signal done, cancel the fetcher - the client may still
+   finish the response it is working on); otherwise the minimum timestamp follows the new target *)
+ForwardCompletes(h) == IF StrictForward THEN ts[h] - ts[oldest] > Win ELSE ts[h] - ts[oldest] >= Win
+Forward ==
+  /\ tgt < N /\ tgt' = tgt + 1
+  /\ sdone' = (sdone \/ ForwardCompletes(tgt + 1))
+  /\ UNCHANGED <<conf, ts, oldest, last, inflight, reqH, cdone, delivered, saved, faults>>
+
+Next == ClientCheck \/ RoundStart \/ HonestRound \/ FaultyRound \/ Save \/ SignalDone \/ Forward
 
 (* ---- properties ---- *)
 (* every recorded block is the true parent of the previously recorded one, starting below `oldest` *)
 SavedAreTrueAncestorsContiguous ==
   \A i \in 1..Len(saved) : saved[i] = True(oldest - i)
 SavedHeights == {saved[i].h : i \in 1..Len(saved)}
-(* at completion everything the window needs (through the first block past it, or genesis) is recorded *)
+(* at completion everything the window of the CURRENT target needs below `oldest` (through the first block past the
+   window, or genesis) is recorded; the blocks from `oldest` up to the target are held by the node *)
 CompleteWhenDone == sdone => Required(oldest) \subseteq SavedHeights
 (* once everything needed is recorded the backfill does complete *)
 NothingLeftToFetch == Required(oldest) \subseteq SavedHeights
